@@ -1,38 +1,35 @@
-import AkVerif.Gen.C19
-import AkVerif.Lemmas.CliGraphArgs
+import AkVerif.Lemmas.CliGraphReach
 /-!
 # C19 — command options are inherited exactly along the declared command graph
 
-Property theorems only. `cfg`/`std` are *generated from the source* (`Gen.C19`): the standard options
-of `_mk_std_args` (plus argparse's help option of `common_options`) and the collection the first
+Property theorems only. `cfg` is *generated from the source* (`Gen.C19`): the standard options of
+`_mk_std_args` with and without `_no_log` (plus argparse's help option) and the collection the first
 argument is compared with in `parse_args`.
 
 Vocabulary: `ds` is the parsed `commands=` list, `Anc ds a c` the transitive closure of "`c` names `a`
 as a parent", `WF [] ds` says names are non-empty and distinct and parents refer to earlier entries,
 `adds` is the history of `add_argument` calls (`none` = on the `ArgParser`, `some p` = on
-`get_cmd_parser(p)`), `Reach dflt ds adds st` says the constructor and all those calls succeeded.
+`get_cmd_parser(p)`), `Reach nl dflt ds adds st` says the constructor (`nl` = `_no_log`) and all those
+calls succeeded. `extensions tbl t` are the option strings of a table that start with `t`
+(argparse's abbreviation rule), `finishable tbl` says the table has no positional that must be given.
 -/
 namespace C19
 open CliGraph Ak
 
-abbrev cfg : Cfg := Gen.C19.cfg
-abbrev std : List OptSpec := Gen.C19.std
-
-/-- a reachable `ArgParser`: built from `ds`, then every `add_argument` of `adds` succeeded -/
-def Reach (dflt : Option Name) (ds : List Decl) (adds : List (Option Name × OptSpec)) (st : St) : Prop :=
-  ∃ st0, build cfg dflt ds = .ok st0 ∧ addAll st0 adds = .ok st
-
-def hShort : Name := ['-', 'h']
-def hLong : Name := ['-', '-', 'h', 'e', 'l', 'p']
+def sV : Name := ['-', 'v']
+def sVerbose : Name := ['-', '-', 'v', 'e', 'r', 'b', 'o', 's', 'e']
+def sColor : Name := ['-', '-', 'c', 'o', 'l', 'o', 'r']
+def sNoColor : Name := ['-', '-', 'n', 'o', '-', 'c', 'o', 'l', 'o', 'r']
+def verbose : Name := ['v', 'e', 'r', 'b', 'o', 's', 'e']
 
 /-- what the statement calls "the standard color and verbosity options" is what the source declares:
-`-v`, `--verbose`, `--color`, `--no-color` are option strings of every fresh command parser, the
-attribute `no_color` that `parse_args` reads exists and is false by default,
-and the first-argument test of `parse_args` looks for `-h`/`--help`. Re-decided when the source changes. -/
+`--color`, `--no-color` (always) and `-v`, `--verbose` (unless `_no_log`) are option strings of every
+fresh parser, the attribute `no_color` that `parse_args` reads exists and is false by default, and the
+first-argument test of `parse_args` looks for `-h`/`--help`. Re-decided when the source changes. -/
 theorem std_shape :
-    (∀ s ∈ [['-', 'v'], ['-', '-', 'v', 'e', 'r', 'b', 'o', 's', 'e'], ['-', '-', 'c', 'o', 'l', 'o', 'r'],
-        ['-', '-', 'n', 'o', '-', 'c', 'o', 'l', 'o', 'r']], s ∈ optStrings std) ∧
-    (defaults std []).get noColor = some (.bool false) ∧
+    (∀ nl, ∀ s ∈ [sColor, sNoColor], s ∈ optStrings (std nl)) ∧
+    (∀ s ∈ [sV, sVerbose], s ∈ optStrings (std false)) ∧
+    (∀ nl, (defaults (std nl) []).get noColor = some (.bool false)) ∧
     cfg.helpFirst = [hShort, hLong] := by decide +kernel
 
 /-! ### declaration strings -/
@@ -49,53 +46,18 @@ theorem decl_syntax :
 
 /-! ### construction -/
 
-private theorem build_unfold {dflt : Option Name} {ds : List Decl} {st0 : St} (h : build cfg dflt ds = .ok st0) :
-    ds ≠ [] ∧ declareAll std [] ds = .ok st0.parsers ∧
-      st0.default = chooseDefault dflt st0.parsers := by
-  unfold build at h
-  by_cases hne : ds = []
-  · simp [hne] at h
-  · simp only [hne, if_false] at h
-    cases hd : declareAll cfg.std [] ds with
-    | error e => simp [hd] at h
-    | ok ps =>
-      simp only [hd] at h
-      cases h
-      exact ⟨hne, hd, rfl⟩
-
-private theorem reach_unfold {dflt : Option Name} {ds : List Decl} {adds : List (Option Name × OptSpec)} {st : St}
-    (h : Reach dflt ds adds st) :
-    ∃ ps0, Inv std ds ps0 ∧ WF [] ds ∧ ds ≠ [] ∧ st.parsers = ps0.map (ext ps0 adds) ∧
-      st.default = chooseDefault dflt ps0 := by
-  obtain ⟨st0, hb, ha⟩ := h
-  obtain ⟨hne, hd, hdf⟩ := build_unfold hb
-  have hwf : WF [] ds := declareAll_wf ds (inv_nil std) hd
-  obtain ⟨ps', he, hinv⟩ := declareAll_ok ds (inv_nil std) hwf
-  rw [hd] at he
-  cases he
-  obtain ⟨h1, h2⟩ := addAll_ok st0.parsers adds [] st0 st (ext_nil _).symm ha
-  exact ⟨st0.parsers, by simpa using hinv, hwf, hne, by simpa using h2, h1.trans hdf⟩
-
-private theorem reach_nodup {ds : List Decl} {ps0 : List Parser} {adds : List (Option Name × OptSpec)}
-    (hinv : Inv std ds ps0) (hwf : WF [] ds) : (names (ps0.map (ext ps0 adds))).Nodup := by
-  have : names (ps0.map (ext ps0 adds)) = names ps0 := by
-    simp only [names, List.map_map]
-    exact List.map_congr_left (fun q _ => rfl)
-  rw [this, hinv.names]
-  simpa using wf_nodup ds [] hwf (by simp)
-
 /-- **Closure.** For every non-empty list of declarations whose parents refer to earlier commands
 (chains, forests, diamonds, a parent given together with one of its own ancestors, `!` sets …) the
 constructor succeeds, and in every reachable state the dependents of a parser are exactly the commands
 it is a proper ancestor of — the eager registration computes the transitive closure. -/
-theorem closure (dflt : Option Name) (ds : List Decl) (hne : ds ≠ []) (hwf : WF [] ds) :
-    (∃ st, build cfg dflt ds = .ok st) ∧
-    ∀ adds st, Reach dflt ds adds st →
+theorem closure (nl : Bool) (dflt : Option Name) (ds : List Decl) (hne : ds ≠ []) (hwf : WF [] ds) :
+    (∃ st, build cfg nl dflt ds = .ok st) ∧
+    ∀ adds st, Reach nl dflt ds adds st →
       names st.parsers = dnames ds ∧ ∀ q ∈ st.parsers, ∀ c, c ∈ q.deps ↔ Anc ds q.name c := by
   constructor
-  · obtain ⟨ps, he, _⟩ := declareAll_ok (std := std) ds (inv_nil std) hwf
-    have he' : declareAll cfg.std [] ds = .ok ps := he
-    have : build cfg dflt ds = .ok { parsers := ps, default := chooseDefault dflt ps } := by
+  · obtain ⟨ps, he, _⟩ := declareAll_ok (std := std nl) ds (inv_nil (std nl)) hwf
+    have he' : declareAll (cfg.stdOf nl) [] ds = .ok ps := he
+    have : build cfg nl dflt ds = .ok { parsers := ps, default := chooseDefault dflt ps } := by
       simp only [build, hne, if_false, he']
     exact ⟨_, this⟩
   · intro adds st hr
@@ -111,21 +73,21 @@ theorem closure (dflt : Option Name) (ds : List Decl) (hne : ds ≠ []) (hwf : W
 
 /-- The constructor succeeds **exactly** on the well-formed lists, and its only failure is
 `AssertionError` (empty list, empty or repeated name, unknown / later / own name as a parent). -/
-theorem build_ok_iff (dflt : Option Name) (ds : List Decl) :
-    ((∃ st, build cfg dflt ds = .ok st) ↔ ds ≠ [] ∧ WF [] ds) ∧
-    ∀ e, build cfg dflt ds = .error e → e = .assertion := by
+theorem build_ok_iff (nl : Bool) (dflt : Option Name) (ds : List Decl) :
+    ((∃ st, build cfg nl dflt ds = .ok st) ↔ ds ≠ [] ∧ WF [] ds) ∧
+    ∀ e, build cfg nl dflt ds = .error e → e = .assertion := by
   constructor
   · constructor
     · rintro ⟨st, h⟩
       obtain ⟨hne, hd, _⟩ := build_unfold h
-      exact ⟨hne, declareAll_wf ds (inv_nil std) hd⟩
+      exact ⟨hne, declareAll_wf ds (inv_nil (std nl)) hd⟩
     · rintro ⟨hne, hwf⟩
-      exact (closure dflt ds hne hwf).1
+      exact (closure nl dflt ds hne hwf).1
   · intro e h
     unfold build at h
     split at h
     · cases h; rfl
-    · cases hd : declareAll cfg.std [] ds with
+    · cases hd : declareAll (cfg.stdOf nl) [] ds with
       | error e' =>
         simp only [hd] at h
         cases h
@@ -134,13 +96,13 @@ theorem build_ok_iff (dflt : Option Name) (ds : List Decl) :
 
 /-- The parents of a declaration are a *set*: order and repetitions in `name:p1,p2,…` do not matter
 (the code iterates over a Python `set`, whose order is arbitrary). -/
-theorem declare_order_irrelevant (ps : List Parser) (d d' : Decl) (hn : d'.name = d.name)
+theorem declare_order_irrelevant (tbl : List OptSpec) (ps : List Parser) (d d' : Decl) (hn : d'.name = d.name)
     (hi : d'.internal = d.internal) (hp : ∀ p, p ∈ d'.parents ↔ p ∈ d.parents) :
-    declare std ps d' = declare std ps d := by
+    declare tbl ps d' = declare tbl ps d := by
   by_cases hok : d.name ≠ [] ∧ d.name ∉ names ps ∧ ∀ p ∈ d.parents, p ∈ names ps
   · obtain ⟨h1, h2, h3⟩ := hok
-    rw [declare_eq std ps d h1 h2 h3,
-      declare_eq std ps d' (hn ▸ h1) (hn ▸ h2) (fun p h => h3 p ((hp p).mp h)), hn, hi]
+    rw [declare_eq tbl ps d h1 h2 h3,
+      declare_eq tbl ps d' (hn ▸ h1) (hn ▸ h2) (fun p h => h3 p ((hp p).mp h)), hn, hi]
     congr 2
     apply List.map_congr_left
     intro q _
@@ -153,10 +115,10 @@ theorem declare_order_irrelevant (ps : List Parser) (d d' : Decl) (hn : d'.name 
       rw [hn]
       exact fun ⟨h1, h2, h3⟩ => hok ⟨h1, h2, fun p h => h3 p ((hp p).mpr h)⟩
     have e1 : ∀ d : Decl, ¬ (d.name ≠ [] ∧ d.name ∉ names ps ∧ ∀ p ∈ d.parents, p ∈ names ps) →
-        declare std ps d = .error .assertion := by
+        declare tbl ps d = .error .assertion := by
       intro d hd
-      cases h : declare std ps d with
-      | ok r => exact absurd ((declare_ok_iff std ps d).mp ⟨r, h⟩) hd
+      cases h : declare tbl ps d with
+      | ok r => exact absurd ((declare_ok_iff tbl ps d).mp ⟨r, h⟩) hd
       | error e => rw [declare_err h]
     rw [e1 d hok, e1 d' hok']
 
@@ -165,8 +127,8 @@ theorem declare_order_irrelevant (ps : List Parser) (d d' : Decl) (hn : d'.name 
 /-- **The option table of a parser.** In a reachable state a spec is in the table of the parser `q`
 iff it is a standard option or was placed on the `ArgParser`, on `q` itself, or on a proper ancestor
 of `q` — nothing is lost along diamonds, nothing leaks to unrelated parsers. -/
-theorem options_iff {dflt ds adds st} (hr : Reach dflt ds adds st) :
-    ∀ q ∈ st.parsers, ∀ o, o ∈ q.opts ↔ o ∈ std ∨ ∃ t, (t, o) ∈ adds ∧ Applies ds t q.name := by
+theorem options_iff {nl dflt ds adds st} (hr : Reach nl dflt ds adds st) :
+    ∀ q ∈ st.parsers, ∀ o, o ∈ q.opts ↔ o ∈ std nl ∨ ∃ t, (t, o) ∈ adds ∧ Applies ds t q.name := by
   obtain ⟨ps0, hinv, _, _, hp, _⟩ := reach_unfold hr
   intro q' hq' o
   rw [hp] at hq'
@@ -180,36 +142,38 @@ theorem options_iff {dflt ds adds st} (hr : Reach dflt ds adds st) :
     · exact Or.inl h
     · exact Or.inr ⟨(t, o), ⟨h1, (recvN_iff_applies hinv hq t).mpr h2⟩, rfl⟩
 
+/-- the same for option strings: what a command's parser can match is inherited exactly -/
+theorem strings_iff {nl dflt ds adds st} (hr : Reach nl dflt ds adds st) :
+    ∀ q ∈ st.parsers, ∀ x, x ∈ optStrings q.opts ↔
+      x ∈ optStrings (std nl) ∨ ∃ t o, (t, o) ∈ adds ∧ o.isOpt = true ∧ x ∈ o.strings ∧ Applies ds t q.name := by
+  intro q hq x
+  rw [mem_optStrings, mem_optStrings]
+  constructor
+  · rintro ⟨o, ho, hio, hx⟩
+    rcases (options_iff hr q hq o).mp ho with h | ⟨t, ht, ha⟩
+    · exact Or.inl ⟨o, h, hio, hx⟩
+    · exact Or.inr ⟨t, o, ht, hio, hx, ha⟩
+  · rintro (⟨o, h, hio, hx⟩ | ⟨t, o, ht, hio, hx, ha⟩)
+    · exact ⟨o, (options_iff hr q hq o).mpr (Or.inl h), hio, hx⟩
+    · exact ⟨o, (options_iff hr q hq o).mpr (Or.inr ⟨t, ht, ha⟩), hio, hx⟩
+
 /-- an option placed on the `ArgParser` itself is in the table of every parser -/
-theorem added_to_all {dflt ds adds st} (hr : Reach dflt ds adds st) {o : OptSpec} (ho : (none, o) ∈ adds) :
+theorem added_to_all {nl dflt ds adds st} (hr : Reach nl dflt ds adds st) {o : OptSpec} (ho : (none, o) ∈ adds) :
     ∀ q ∈ st.parsers, o ∈ q.opts :=
   fun q hq => (options_iff hr q hq o).mpr (Or.inr ⟨none, ho, Or.inl rfl⟩)
-
-private theorem reach_opts {dflt ds adds st} (hr : Reach dflt ds adds st) {q : Parser} (hq : q ∈ st.parsers) :
-    ∃ extra, q.opts = std ++ extra := by
-  obtain ⟨ps0, hinv, _, _, hp, _⟩ := reach_unfold hr
-  rw [hp] at hq
-  obtain ⟨q0, hq0, rfl⟩ := List.mem_map.mp hq
-  exact ⟨(adds.filter (fun a => recvN ps0 a.1 q0.name)).map (·.2), by simp only [ext, hinv.opts q0 hq0]⟩
-
-private theorem reach_noColor {dflt ds adds st} (hr : Reach dflt ds adds st) {q : Parser} (hq : q ∈ st.parsers) :
-    Has (defaults q.opts []) noColor := by
-  obtain ⟨extra, he⟩ := reach_opts hr hq
-  rw [he, defaults_append]
-  exact has_defaults (has_of_get std_shape.2.1) _
 
 /-- **No placement is refused without reason.** In a reachable state `add_argument` on the target `t`
 succeeds iff the target is a declared name and no parser that receives the option (every parser; or
 `t` and the commands below it) already has one of its option strings — positionals never fail. The
 only failures are `ValueError` (unknown command) and `ArgumentError`; the new state is reachable. -/
-theorem add_ok_iff {dflt ds adds st} (hr : Reach dflt ds adds st) (t : Option Name) (s : OptSpec) :
+theorem add_ok_iff {nl dflt ds adds st} (hr : Reach nl dflt ds adds st) (t : Option Name) (s : OptSpec) :
     ((∃ st', addOption st t s = .ok st') ↔
       (∀ p, t = some p → p ∈ dnames ds) ∧
       (s.isOpt = true → ∀ q ∈ st.parsers, Applies ds t q.name → ∀ x ∈ s.strings, x ∉ optStrings q.opts)) ∧
     (∀ e, addOption st t s = .error e → e = .exc .valueError ∨ e = .argumentError) ∧
-    (∀ st', addOption st t s = .ok st' → Reach dflt ds (adds ++ [(t, s)]) st') := by
+    (∀ st', addOption st t s = .ok st' → Reach nl dflt ds (adds ++ [(t, s)]) st') := by
   obtain ⟨ps0, hinv, hwf, hne, hp, hd⟩ := reach_unfold hr
-  have hnames : names st.parsers = dnames ds := ((closure dflt ds hne hwf).2 adds st hr).1
+  have hnames : names st.parsers = dnames ds := ((closure nl dflt ds hne hwf).2 adds st hr).1
   refine ⟨?_, fun e h => addOption_err h, ?_⟩
   · rw [addOption_ok_iff, hnames]
     apply and_congr_right
@@ -232,185 +196,291 @@ theorem add_ok_iff {dflt ds adds st} (hr : Reach dflt ds adds st) (t : Option Na
   · intro st' h
     obtain ⟨st0, hb, ha⟩ := hr
     refine ⟨st0, hb, ?_⟩
-    have happ : ∀ (as bs : List (Option Name × OptSpec)) (s0 s1 : St), addAll s0 as = .ok s1 →
-        addAll s0 (as ++ bs) = addAll s1 bs := by
-      intro as bs
-      induction as with
-      | nil => intro s0 s1 h; simp only [addAll] at h; cases h; rfl
-      | cons a as ih =>
-        intro s0 s1 h
-        have e1 : addAll s0 (a :: as) = match addOption s0 a.1 a.2 with
-            | .error e => .error e
-            | .ok st' => addAll st' as := rfl
-        have e2 : addAll s0 (a :: as ++ bs) = match addOption s0 a.1 a.2 with
-            | .error e => .error e
-            | .ok st' => addAll st' (as ++ bs) := rfl
-        rw [e1] at h
-        rw [e2]
-        cases ha' : addOption s0 a.1 a.2 with
-        | error e => simp [ha'] at h
-        | ok s2 => simp only [ha'] at h ⊢; exact ih s2 s1 h
-    rw [happ adds [(t, s)] st0 st ha]
+    rw [addAll_append adds [(t, s)] st0 st ha]
     simp only [addAll, h]
 
 /-! ### from the table to `parse_args` -/
 
 /-- **Dispatch.** Arguments that start with the name of a public command go to that command's
 parser; its namespace gets `command=<name>` and the `no_color` post-processing. -/
-theorem command_dispatch {dflt ds adds st} (hr : Reach dflt ds adds st) {q : Parser} (hq : q ∈ st.parsers)
+theorem command_dispatch {nl dflt ds adds st} (hr : Reach nl dflt ds adds st) {q : Parser} (hq : q ∈ st.parsers)
     (hpub : q.internal = false) (h1 : q.name ≠ hShort) (h2 : q.name ≠ hLong) (rest : List Name) :
     parseArgs cfg st (q.name :: rest) =
       match runParser q rest with
       | .error e => .error e
-      | .ok sub => post (mergeNs [(command, .str q.name)] sub) := by
-  obtain ⟨ps0, hinv, hwf, _, hp, _⟩ := reach_unfold hr
-  have hn : (names st.parsers).Nodup := hp ▸ reach_nodup hinv hwf
-  unfold parseArgs
-  rw [withDefault_keep rest (Or.inr (mem_firstArgNames hq hpub))]
-  exact dispatch_public hn hq hpub h1 h2 rest
+      | .ok sub => post (mergeNs [(command, .str q.name)] sub) :=
+  dispatch_reach hr hq hpub h1 h2 rest
 
-private theorem parse_of_run {dflt ds adds st} (hr : Reach dflt ds adds st) {q : Parser} (hq : q ∈ st.parsers)
-    (hpub : q.internal = false) (h1 : q.name ≠ hShort) (h2 : q.name ≠ hLong) (rest : List Name)
-    (h : ∃ ns, runParser q rest = .ok ns ∧ ∀ k, Has (defaults q.opts []) k → Has ns k) :
-    ∃ ns, parseArgs cfg st (q.name :: rest) = .ok ns := by
-  obtain ⟨sub, hs, hk⟩ := h
-  rw [command_dispatch hr hq hpub h1 h2, hs]
-  exact post_ok (has_mergeNs (hk _ (reach_noColor hr hq)) _)
+/-- **Accepted.** `[cmd, option]` is parsed whenever the option string is in the command's table as a
+flag, and the flag's attribute is `True` in the namespace; a value option followed by a word is parsed
+and the attribute is that word. (`finishable`: the command has no positional that must be given.) -/
+theorem parse_accepts {nl dflt ds adds st} (hr : Reach nl dflt ds adds st) {q : Parser} (hq : q ∈ st.parsers)
+    (hpub : q.internal = false) (h1 : q.name ≠ hShort) (h2 : q.name ≠ hLong) (hfin : finishable q.opts = true)
+    {s : Name} {o : OptSpec} (hs : s.head? = some '-') (hsd : s ≠ dd) (hf : findOpt q.opts s = some o)
+    (hd : destOf o ≠ color ∧ destOf o ≠ noColor ∧ ∀ o' ∈ posSpecs q.opts, destOf o' ≠ destOf o) :
+    (o.kind = .flag → ∃ ns, parseArgs cfg st [q.name, s] = .ok ns ∧ ns.get (destOf o) = some (.bool true)) ∧
+    (o.kind = .value → ∀ w, w ≠ dd → classify q.opts w = .word →
+      ∃ ns, parseArgs cfg st [q.name, s, w] = .ok ns ∧ ns.get (destOf o) = some (.str w)) := by
+  have hc := classify_exact hs hf
+  constructor
+  · intro hk
+    obtain ⟨ns, h, _, hv⟩ := parse_single hr hq hpub h1 h2 (runParser_flag hfin hsd hc hk)
+    exact ⟨ns, h, hv hd.1 hd.2.1 hd.2.2⟩
+  · intro hk w hw hcw
+    obtain ⟨ns, h, _, hv⟩ := parse_single hr hq hpub h1 h2 (runParser_value hfin hsd hc hk hw hcw)
+    exact ⟨ns, h, hv hd.1 hd.2.1 hd.2.2⟩
 
-/-- **Accepted.** `[cmd, option]` is parsed (a namespace, no `SystemExit`) whenever the option string
-is in the command's table as a flag; a value option is parsed when a word follows. -/
-theorem parse_accepts {dflt ds adds st} (hr : Reach dflt ds adds st) {q : Parser} (hq : q ∈ st.parsers)
-    (hpub : q.internal = false) (h1 : q.name ≠ hShort) (h2 : q.name ≠ hLong)
-    {s : Name} {o : OptSpec} (hs : s.head? = some '-') (hf : findOpt q.opts s = some o) :
-    (o.kind = .flag → ∃ ns, parseArgs cfg st [q.name, s] = .ok ns) ∧
-    (o.kind = .value → ∀ w, classify q.opts w = .word → ∃ ns, parseArgs cfg st [q.name, s, w] = .ok ns) := by
-  have hc := classify_known hs hf
-  exact ⟨fun hk => parse_of_run hr hq hpub h1 h2 [s] (runParser_flag hc hk),
-    fun hk w hw => parse_of_run hr hq hpub h1 h2 [s, w] (runParser_value hc hk hw)⟩
-
-/-- **Rejected.** `[cmd, --option]` ends in `SystemExit(2)` whenever the option string is not in the
-command's table (and abbreviates no option string of that table — argparse would expand it). -/
-theorem parse_rejects {dflt ds adds st} (hr : Reach dflt ds adds st) {q : Parser} (hq : q ∈ st.parsers)
-    (hpub : q.internal = false) (h1 : q.name ≠ hShort) (h2 : q.name ≠ hLong)
+/-- **Rejected.** `[cmd, --option]` ends in `SystemExit(2)` whenever no option string of the command's
+table starts with `--option` (argparse would otherwise read it as an abbreviation, see `abbrev_unique`). -/
+theorem parse_rejects {nl dflt ds adds st} (hr : Reach nl dflt ds adds st) {q : Parser} (hq : q ∈ st.parsers)
+    (hpub : q.internal = false) (h1 : q.name ≠ hShort) (h2 : q.name ≠ hLong) (hpos : posOk q.opts = true)
     {c : Char} {r : Name} (heq : '=' ∉ ('-' :: '-' :: c :: r))
-    (hn : ('-' :: '-' :: c :: r) ∉ optStrings q.opts)
     (hab : ∀ x ∈ optStrings q.opts, ¬ ('-' :: '-' :: c :: r) <+: x) :
     parseArgs cfg st [q.name, '-' :: '-' :: c :: r] = .error (.exit 2) := by
-  rw [command_dispatch hr hq hpub h1 h2, runParser_unknown (classify_unknown_long heq hn hab)]
+  have hn : ('-' :: '-' :: c :: r) ∉ optStrings q.opts := fun h => hab _ h (List.prefix_refl _)
+  rw [command_dispatch hr hq hpub h1 h2,
+    runParser_unknown hpos (by simp [dd]) (classify_unknown_long heq hn hab)]
 
 /-- the same for a short option `-x` -/
-theorem parse_rejects_short {dflt ds adds st} (hr : Reach dflt ds adds st) {q : Parser} (hq : q ∈ st.parsers)
-    (hpub : q.internal = false) (h1 : q.name ≠ hShort) (h2 : q.name ≠ hLong)
+theorem parse_rejects_short {nl dflt ds adds st} (hr : Reach nl dflt ds adds st) {q : Parser} (hq : q ∈ st.parsers)
+    (hpub : q.internal = false) (h1 : q.name ≠ hShort) (h2 : q.name ≠ hLong) (hpos : posOk q.opts = true)
     {c : Char} (hc1 : c ≠ '-') (hc2 : c ≠ '=') (hc3 : c.isDigit = false)
-    (hn : ['-', c] ∉ optStrings q.opts) (hab : ∀ x ∈ optStrings q.opts, ¬ ['-', c] <+: x) :
+    (hn : ['-', c] ∉ optStrings q.opts) :
     parseArgs cfg st [q.name, ['-', c]] = .error (.exit 2) := by
-  rw [command_dispatch hr hq hpub h1 h2, runParser_unknown (classify_unknown_short hc1 hc2 hc3 hn hab)]
+  rw [command_dispatch hr hq hpub h1 h2,
+    runParser_unknown hpos (by simp [dd, hc1]) (classify_unknown_short hc1 hc2 hc3 hn)]
 
-/-- the standard option string `s` is declared by the source with a kind for which `[cmd, s]` is a
-complete use (decided on the generated table) -/
-def goodStd (s : Name) : Bool :=
-  s.head? == some '-' &&
-  match findOpt std s with
+/-- **Abbreviations follow inheritance.** A long option `--name` (no `=`) that is not itself an option
+string of the command's table but is the beginning of exactly one of them — own, inherited, added to the
+`ArgParser` or standard — is read exactly like that option string, whatever follows. -/
+theorem abbrev_unique {nl dflt ds adds st} (hr : Reach nl dflt ds adds st) {q : Parser} (hq : q ∈ st.parsers)
+    (hpub : q.internal = false) (h1 : q.name ≠ hShort) (h2 : q.name ≠ hLong)
+    {c : Char} {r x : Name} (heq : '=' ∉ ('-' :: '-' :: c :: r))
+    (hn : ('-' :: '-' :: c :: r) ∉ optStrings q.opts)
+    (hx : extensions q.opts ('-' :: '-' :: c :: r) = [x]) (rest : List Name) :
+    parseArgs cfg st (q.name :: ('-' :: '-' :: c :: r) :: rest) = parseArgs cfg st (q.name :: x :: rest) := by
+  have hm : x ∈ extensions q.opts ('-' :: '-' :: c :: r) := by rw [hx]; exact List.mem_singleton.mpr rfl
+  obtain ⟨hxs, hpre⟩ := extensions_mem hm
+  obtain ⟨o, ho⟩ := findOpt_isSome_iff.mpr hxs
+  obtain ⟨_, hhead⟩ := isSingle_of_long_prefix hpre
+  have hcx := classify_exact hhead ho
+  have hct : classify q.opts ('-' :: '-' :: c :: r) = _ := (classify_abbrev heq hn hx).trans hcx
+  have hxd : x ≠ dd := by
+    obtain ⟨t, rfl⟩ := hpre
+    simp [dd]
+  rw [command_dispatch hr hq hpub h1 h2, command_dispatch hr hq hpub h1 h2,
+    runParser_head_congr (by simp [dd]) hxd hct hcx rest]
+
+/-- … and one that is the beginning of several option strings of the table is an error
+(`ambiguous option`), wherever it stands before `--` — even after `-h`. An option inherited from a parent
+can therefore make an abbreviation ambiguous in the descendants only. -/
+theorem abbrev_ambiguous {nl dflt ds adds st} (hr : Reach nl dflt ds adds st) {q : Parser} (hq : q ∈ st.parsers)
+    (hpub : q.internal = false) (h1 : q.name ≠ hShort) (h2 : q.name ≠ hLong) (hpos : posOk q.opts = true)
+    {c : Char} {r x y : Name} {l : List Name} (heq : '=' ∉ ('-' :: '-' :: c :: r))
+    (hn : ('-' :: '-' :: c :: r) ∉ optStrings q.opts)
+    (hx : extensions q.opts ('-' :: '-' :: c :: r) = x :: y :: l) (pre rest : List Name) (hpre : dd ∉ pre) :
+    parseArgs cfg st (q.name :: (pre ++ ('-' :: '-' :: c :: r) :: rest)) = .error (.exit 2) := by
+  rw [command_dispatch hr hq hpub h1 h2,
+    runParser_ambiguous hpos (by simp [dd]) (classify_ambiguous heq hn hx) pre rest hpre]
+
+/-- **Inherited exactly (end to end).** Let `t = --name` (no `=`) be such that every option of the
+command's table it could stand for is a flag, and let the command have no positional that must be given.
+Then `[cmd, t]` is parsed to a namespace **iff** `t` is an option string of the table or the beginning of
+exactly one — and by `strings_iff` the option strings of the table are the standard ones and those placed
+on the `ArgParser`, on the command or on a direct or transitive parent. Otherwise `parse_args` exits. -/
+theorem accepts_iff {nl dflt ds adds st} (hr : Reach nl dflt ds adds st) {q : Parser} (hq : q ∈ st.parsers)
+    (hpub : q.internal = false) (h1 : q.name ≠ hShort) (h2 : q.name ≠ hLong) (hfin : finishable q.opts = true)
+    {c : Char} {r : Name} (heq : '=' ∉ ('-' :: '-' :: c :: r))
+    (hflag : ∀ o ∈ q.opts, o.isOpt = true → (∃ x ∈ o.strings, ('-' :: '-' :: c :: r) <+: x) → o.kind = .flag) :
+    ((∃ ns, parseArgs cfg st [q.name, '-' :: '-' :: c :: r] = .ok ns) ↔
+      (('-' :: '-' :: c :: r) ∈ optStrings q.opts ∨ (extensions q.opts ('-' :: '-' :: c :: r)).length = 1)) ∧
+    ((¬ (('-' :: '-' :: c :: r) ∈ optStrings q.opts ∨ (extensions q.opts ('-' :: '-' :: c :: r)).length = 1)) →
+      parseArgs cfg st [q.name, '-' :: '-' :: c :: r] = .error (.exit 2)) := by
+  have hpos := posOk_of_finishable hfin
+  have hdd : ('-' :: '-' :: c :: r) ≠ dd := by simp [dd]
+  -- an option string of the table that starts with `t` belongs to a flag
+  have flag_of : ∀ x o, findOpt q.opts x = some o → ('-' :: '-' :: c :: r) <+: x → o.kind = .flag := by
+    intro x o ho hp
+    obtain ⟨hm, hio, hxs⟩ := findOpt_some ho
+    exact hflag o hm hio ⟨x, hxs, hp⟩
+  have okflag : ∀ x, x ≠ dd → x.head? = some '-' → ∀ o, findOpt q.opts x = some o → o.kind = .flag →
+      ∃ ns, parseArgs cfg st [q.name, x] = .ok ns := by
+    intro x hxd hxh o ho hk
+    obtain ⟨ns, h, _⟩ := parse_single hr hq hpub h1 h2 (runParser_flag hfin hxd (classify_exact hxh ho) hk)
+    exact ⟨ns, h⟩
+  by_cases hmem : ('-' :: '-' :: c :: r) ∈ optStrings q.opts
+  · obtain ⟨o, ho⟩ := findOpt_isSome_iff.mpr hmem
+    have hok := okflag _ hdd rfl o ho (flag_of _ o ho (List.prefix_refl _))
+    exact ⟨⟨fun _ => Or.inl hmem, fun _ => hok⟩, fun h => absurd (Or.inl hmem) h⟩
+  · cases hx : extensions q.opts ('-' :: '-' :: c :: r) with
+    | nil =>
+      have hrej := parse_rejects hr hq hpub h1 h2 hpos heq (extensions_nil_iff.mp hx)
+      refine ⟨⟨fun ⟨ns, h⟩ => (by rw [hrej] at h; cases h), fun h => ?_⟩, fun _ => hrej⟩
+      rcases h with h | h
+      · exact absurd h hmem
+      · simp at h
+    | cons x l =>
+      cases l with
+      | nil =>
+        have hm : x ∈ extensions q.opts ('-' :: '-' :: c :: r) := by rw [hx]; exact List.mem_singleton.mpr rfl
+        obtain ⟨hxs, hpre⟩ := extensions_mem hm
+        obtain ⟨o, ho⟩ := findOpt_isSome_iff.mpr hxs
+        obtain ⟨_, hhead⟩ := isSingle_of_long_prefix hpre
+        have hxd : x ≠ dd := by
+          obtain ⟨t, rfl⟩ := hpre
+          simp [dd]
+        have hok := okflag x hxd hhead o ho (flag_of x o ho hpre)
+        rw [← abbrev_unique hr hq hpub h1 h2 heq hmem hx []] at hok
+        exact ⟨⟨fun _ => Or.inr rfl, fun _ => hok⟩, fun h => absurd (Or.inr rfl) h⟩
+      | cons y l' =>
+        have hrej := abbrev_ambiguous hr hq hpub h1 h2 hpos heq hmem hx [] [] (by simp)
+        simp only [List.nil_append] at hrej
+        refine ⟨⟨fun ⟨ns, h⟩ => (by rw [hrej] at h; cases h), fun h => ?_⟩, fun _ => hrej⟩
+        rcases h with h | h
+        · exact absurd h hmem
+        · simp at h
+
+/-! ### the standard options -/
+
+/-- decided on the generated table: `s` is an option string of every fresh parser, its attribute is `d`
+and its kind is the one named by `tag` (0: counter starting at 0, 1: flag, 2: optional choice) -/
+def stdIs (nl : Bool) (s d : Name) (tag : Nat) : Bool :=
+  s.head? == some '-' && s != dd &&
+  match findOpt (std nl) s with
   | some o =>
-    (match o.kind with
-      | .count => (defaults std []).get (destOf o) == some (.nat 0)
-      | .optChoice _ _ => true
-      | .flag => true
-      | _ => false)
+    destOf o == d &&
+    (match o.kind, tag with
+      | .count, 0 => (defaults (std nl) []).get d == some (.nat 0)
+      | .flag, 1 => true
+      | .optChoice _ _, 2 => true
+      | _, _ => false)
   | none => false
 
-/-- **Standard options.** `-v`, `--verbose`, `--color` and `--no-color` are accepted by every public
-command of every reachable parser, whatever was declared and added. -/
-theorem std_accepted {dflt ds adds st} (hr : Reach dflt ds adds st) {q : Parser} (hq : q ∈ st.parsers)
-    (hpub : q.internal = false) (h1 : q.name ≠ hShort) (h2 : q.name ≠ hLong) :
-    ∀ s ∈ [['-', 'v'], ['-', '-', 'v', 'e', 'r', 'b', 'o', 's', 'e'], ['-', '-', 'c', 'o', 'l', 'o', 'r'],
-        ['-', '-', 'n', 'o', '-', 'c', 'o', 'l', 'o', 'r']],
-      ∃ ns, parseArgs cfg st [q.name, s] = .ok ns := by
-  obtain ⟨extra, he⟩ := reach_opts hr hq
-  have hall : ∀ s ∈ [['-', 'v'], ['-', '-', 'v', 'e', 'r', 'b', 'o', 's', 'e'], ['-', '-', 'c', 'o', 'l', 'o', 'r'],
-      ['-', '-', 'n', 'o', '-', 'c', 'o', 'l', 'o', 'r']], goodStd s = true := by decide +kernel
-  intro s hs
-  have hg := hall s hs
-  unfold goodStd at hg
-  simp only [Bool.and_eq_true, beq_iff_eq] at hg
-  obtain ⟨hhead, hg⟩ := hg
-  cases hf : findOpt std s with
-  | none => simp [hf] at hg
+private theorem std_single {nl : Bool} {q : Parser} {extra : List OptSpec} (he : q.opts = std nl ++ extra)
+    (hfin : finishable q.opts = true) {s d : Name} {tag : Nat} (hu : stdIs nl s d tag = true) :
+    ∃ o v, destOf o = d ∧ SingleOk q [s] o v ∧
+      (tag = 0 → v = .nat 1) ∧ (tag = 1 → v = .bool true) ∧ (tag = 2 → v = .none) := by
+  unfold stdIs at hu
+  simp only [Bool.and_eq_true, beq_iff_eq, bne_iff_ne, ne_eq] at hu
+  obtain ⟨⟨hhead, hdd⟩, hu⟩ := hu
+  cases hf : findOpt (std nl) s with
+  | none => simp [hf] at hu
   | some o =>
-    simp only [hf] at hg
-    have hc : classify q.opts s = .opt o none := classify_known hhead (he ▸ findOpt_append_left hf)
+    simp only [hf, Bool.and_eq_true, beq_iff_eq] at hu
+    obtain ⟨hdest, hu⟩ := hu
+    have hc : classify q.opts s = .opt o (isSingle s) none :=
+      classify_exact hhead (he ▸ findOpt_append_left hf)
     cases hk : o.kind with
     | count =>
-      simp only [hk, beq_iff_eq] at hg
-      have hverb : (defaults q.opts []).get (destOf o) = some (.nat 0) := by
-        rw [he, defaults_append]; exact defaults_get hg _
-      exact parse_of_run hr hq hpub h1 h2 _ (runParser_count hc hk hverb)
-    | optChoice ch d => exact parse_of_run hr hq hpub h1 h2 _ (runParser_optChoice hc hk)
-    | flag => exact parse_of_run hr hq hpub h1 h2 _ (runParser_flag hc hk)
-    | value => simp [hk] at hg
-    | help => simp [hk] at hg
-    | pos => simp [hk] at hg
+      cases tag with
+      | zero =>
+        simp only [hk, beq_iff_eq] at hu
+        have hd0 : (defaults q.opts []).get (destOf o) = some (.nat 0) := by
+          rw [he, defaults_append, hdest]; exact defaults_get hu _
+        exact ⟨o, _, hdest, runParser_count hfin hdd hc hk hd0, fun _ => rfl, (fun h => nomatch h), (fun h => nomatch h)⟩
+      | succ n => simp [hk] at hu
+    | flag =>
+      match tag, hu with
+      | 1, _ => exact ⟨o, _, hdest, runParser_flag hfin hdd hc hk, (fun h => nomatch h), fun _ => rfl, (fun h => nomatch h)⟩
+      | 0, hu => simp [hk] at hu
+      | n + 2, hu => simp [hk] at hu
+    | optChoice ch d' =>
+      match tag, hu with
+      | 2, _ => exact ⟨o, _, hdest, runParser_optChoice hfin hdd hc hk, (fun h => nomatch h), (fun h => nomatch h), fun _ => rfl⟩
+      | 0, hu => simp [hk] at hu
+      | 1, hu => simp [hk] at hu
+      | n + 3, hu => simp [hk] at hu
+    | value => simp [hk] at hu
+    | help => simp [hk] at hu
+    | pos n => simp [hk] at hu
 
-/-- **Inherited exactly (end to end).** Let `s = --name` be an option string that every placement
-uses as a flag, that is not a standard option string and is no proper prefix of any option string in
-play. Then a public command `q` parses `[q, s]` to a namespace **iff** `s` was placed on the
-`ArgParser`, on `q`, or on a direct or transitive parent of `q`; otherwise `parse_args` exits. -/
-theorem accepts_iff {dflt ds adds st} (hr : Reach dflt ds adds st) {q : Parser} (hq : q ∈ st.parsers)
+/-- **Standard options.** In every reachable parser, for every public command without a required
+positional (and without a positional called `verbose`, `color` or `no_color`):
+`--color` and `--no-color` are accepted, and so are `-v` and `--verbose` unless the `ArgParser` was built
+with `_no_log`; `-v` makes `verbose` 1, `--no-color` makes `color` `False`, `--color` alone makes it
+`None`, and the helper attribute `no_color` never reaches the caller. -/
+theorem std_accepted {nl dflt ds adds st} (hr : Reach nl dflt ds adds st) {q : Parser} (hq : q ∈ st.parsers)
+    (hpub : q.internal = false) (h1 : q.name ≠ hShort) (h2 : q.name ≠ hLong) (hfin : finishable q.opts = true)
+    (hpc : ∀ o' ∈ posSpecs q.opts, destOf o' ≠ verbose ∧ destOf o' ≠ color ∧ destOf o' ≠ noColor) :
+    (nl = false → ∀ s ∈ [sV, sVerbose], ∃ ns, parseArgs cfg st [q.name, s] = .ok ns ∧
+      ns.get verbose = some (.nat 1) ∧ ns.get noColor = none) ∧
+    (∃ ns, parseArgs cfg st [q.name, sNoColor] = .ok ns ∧ ns.get color = some (.bool false) ∧ ns.get noColor = none) ∧
+    (∃ ns, parseArgs cfg st [q.name, sColor] = .ok ns ∧ ns.get color = some .none ∧ ns.get noColor = none) := by
+  obtain ⟨extra, he⟩ := reach_opts hr hq
+  have hnc := reach_noColor hr hq
+  have hv : ∀ s ∈ [sV, sVerbose], stdIs false s verbose 0 = true := by decide +kernel
+  have hn : ∀ nl, stdIs nl sNoColor noColor 1 = true := by decide +kernel
+  have hc : ∀ nl, stdIs nl sColor color 2 = true := by decide +kernel
+  refine ⟨?_, ?_, ?_⟩
+  · intro hnl s hs
+    subst hnl
+    obtain ⟨o, v, hd, hso, hv0, _, _⟩ := std_single he hfin (hv s hs)
+    rw [hv0 rfl] at hso
+    obtain ⟨ns, hp, hno, hval⟩ := parse_single hr hq hpub h1 h2 hso
+    refine ⟨ns, hp, ?_, hno⟩
+    rw [← hd]
+    exact hval (by rw [hd]; decide) (by rw [hd]; decide) (fun o' ho' => hd ▸ (hpc o' ho').1)
+  · obtain ⟨o, v, hd, hso, _, hv1, _⟩ := std_single he hfin (hn nl)
+    rw [hv1 rfl] at hso
+    obtain ⟨sub, hs, hhas, hval, _⟩ := hso.ok
+    obtain ⟨ns, hp, hno, _, _, hcol, _⟩ := parse_sub hr hq hpub h1 h2 hs (hhas _ (has_of_get hnc))
+    refine ⟨ns, hp, hcol (.bool true) ?_ rfl, hno⟩
+    rw [← hd]
+    exact hval (fun o' ho' => hd ▸ (hpc o' ho').2.2)
+  · obtain ⟨o, v, hd, hso, _, _, hv2⟩ := std_single he hfin (hc nl)
+    rw [hv2 rfl] at hso
+    obtain ⟨sub, hs, hhas, hval, hoth⟩ := hso.ok
+    obtain ⟨ns, hp, hno, _, _, _, hcol⟩ := parse_sub hr hq hpub h1 h2 hs (hhas _ (has_of_get hnc))
+    refine ⟨ns, hp, hcol (.bool false) .none ?_ rfl ?_, hno⟩
+    · rw [hoth noColor (by rw [hd]; decide) (fun o' ho' => (hpc o' ho').2.2)]
+      exact hnc
+    · rw [← hd]
+      exact hval (fun o' ho' => hd ▸ (hpc o' ho').2.1)
+
+/-- **`-vv…v`.** Unless built with `_no_log`, every public command (without a required positional, without
+a positional called `verbose`) reads a cluster of `k+2` letters `v` as `verbose = k+2`. -/
+theorem verbose_cluster {dflt ds adds st} (hr : Reach false dflt ds adds st) {q : Parser} (hq : q ∈ st.parsers)
+    (hpub : q.internal = false) (h1 : q.name ≠ hShort) (h2 : q.name ≠ hLong) (hfin : finishable q.opts = true)
+    (hpc : ∀ o' ∈ posSpecs q.opts, destOf o' ≠ verbose) (k : Nat)
+    (hn : ('-' :: List.replicate (k + 2) 'v') ∉ optStrings q.opts) :
+    ∃ ns, parseArgs cfg st [q.name, '-' :: List.replicate (k + 2) 'v'] = .ok ns ∧
+      ns.get verbose = some (.nat (k + 2)) := by
+  obtain ⟨extra, he⟩ := reach_opts hr hq
+  have hv : (findOpt (std false) sV).map (fun o => (o.kind, o.mutex, destOf o)) = some (.count, false, verbose) ∧
+      (defaults (std false) []).get verbose = some (.nat 0) := by decide +kernel
+  cases hf : findOpt (std false) sV with
+  | none => simp [hf] at hv
+  | some o =>
+    simp only [hf, Option.map_some, Option.some.injEq, Prod.mk.injEq] at hv
+    obtain ⟨⟨hk, hm, hd⟩, hd0⟩ := hv
+    have ho : findOpt q.opts ['-', 'v'] = some o := he ▸ findOpt_append_left hf
+    have hd0' : (defaults q.opts []).get (destOf o) = some (.nat 0) := by
+      rw [he, defaults_append, hd]; exact defaults_get hd0 _
+    obtain ⟨sub, hs, hval, hhas⟩ := runParser_count_cluster hfin (by decide) (by decide) hk hm ho k hn hd0'
+      (fun o' ho' => hd ▸ hpc o' ho')
+    obtain ⟨ns, hp, _, hkv, _⟩ := parse_sub hr hq hpub h1 h2 hs (hhas _ (has_of_get (reach_noColor hr hq)))
+    exact ⟨ns, hp, hkv verbose _ (by decide) (by decide) (hd ▸ hval)⟩
+
+/-- **`--` ends the options.** For a public command whose only positional is a `nargs='*'` one, the arguments
+`-- w1 w2 …` are accepted whatever the words look like (option strings, `--`, `-h` …) and the positional
+receives exactly those words. -/
+theorem dd_words {nl dflt ds adds st} (hr : Reach nl dflt ds adds st) {q : Parser} (hq : q ∈ st.parsers)
     (hpub : q.internal = false) (h1 : q.name ≠ hShort) (h2 : q.name ≠ hLong)
-    {c : Char} {r : Name} (heq : '=' ∉ ('-' :: '-' :: c :: r))
-    (hflag : ∀ t o, (t, o) ∈ adds → ('-' :: '-' :: c :: r) ∈ o.strings → o.kind = .flag)
-    (hstd : ('-' :: '-' :: c :: r) ∉ optStrings std)
-    (hab : ∀ x, (x ∈ optStrings std ∨ ∃ t o, (t, o) ∈ adds ∧ x ∈ o.strings) →
-      ('-' :: '-' :: c :: r) <+: x → x = '-' :: '-' :: c :: r) :
-    ((∃ ns, parseArgs cfg st [q.name, '-' :: '-' :: c :: r] = .ok ns) ↔
-      ∃ t o, (t, o) ∈ adds ∧ ('-' :: '-' :: c :: r) ∈ o.strings ∧ Applies ds t q.name) ∧
-    ((¬ ∃ t o, (t, o) ∈ adds ∧ ('-' :: '-' :: c :: r) ∈ o.strings ∧ Applies ds t q.name) →
-      parseArgs cfg st [q.name, '-' :: '-' :: c :: r] = .error (.exit 2)) := by
-  have hopt := options_iff hr q hq
-  -- membership of the string in the table, in terms of the placements
-  have hmem : ('-' :: '-' :: c :: r) ∈ optStrings q.opts ↔
-      ∃ t o, (t, o) ∈ adds ∧ ('-' :: '-' :: c :: r) ∈ o.strings ∧ Applies ds t q.name := by
-    rw [mem_optStrings]
-    constructor
-    · rintro ⟨o, ho, hio, hso⟩
-      rcases (hopt o).mp ho with h | ⟨t, ht, ha⟩
-      · exact absurd (mem_optStrings.mpr ⟨o, h, hio, hso⟩) hstd
-      · exact ⟨t, o, ht, hso, ha⟩
-    · rintro ⟨t, o, ht, hso, ha⟩
-      refine ⟨o, (hopt o).mpr (Or.inr ⟨t, ht, ha⟩), ?_, hso⟩
-      simp [OptSpec.isOpt, hflag t o ht hso]
-  have hrej : ('-' :: '-' :: c :: r) ∉ optStrings q.opts →
-      parseArgs cfg st [q.name, '-' :: '-' :: c :: r] = .error (.exit 2) := by
-    intro hn
-    apply parse_rejects hr hq hpub h1 h2 heq hn
-    intro x hx hpre
-    obtain ⟨o, ho, hio, hxo⟩ := mem_optStrings.mp hx
-    have : x = '-' :: '-' :: c :: r := by
-      apply hab x _ hpre
-      rcases (hopt o).mp ho with h | ⟨t, ht, _⟩
-      · exact Or.inl (mem_optStrings.mpr ⟨o, h, hio, hxo⟩)
-      · exact Or.inr ⟨t, o, ht, hxo⟩
-    exact hn (this ▸ hx)
-  refine ⟨⟨?_, ?_⟩, fun h => hrej (fun hm => h (hmem.mp hm))⟩
-  · rintro ⟨ns, hns⟩
-    apply hmem.mp
-    apply Classical.byContradiction
-    intro hn
-    rw [hrej hn] at hns
-    cases hns
-  · intro h
-    obtain ⟨o, hfo⟩ := findOpt_isSome_iff.mpr (hmem.mpr h)
-    obtain ⟨ho, _, hso⟩ := findOpt_some hfo
-    have hk : o.kind = .flag := by
-      rcases (hopt o).mp ho with h' | ⟨t, ht, _⟩
-      · exact absurd (mem_optStrings.mpr ⟨o, h', (findOpt_some hfo).2.1, hso⟩) hstd
-      · exact hflag t o ht hso
-    exact (parse_accepts hr hq hpub h1 h2 rfl hfo).1 hk
+    {o : OptSpec} (hp : posSpecs q.opts = [o]) (hn : posN o = .star)
+    (hd : destOf o ≠ color ∧ destOf o ≠ noColor) (ws : List Name) :
+    ∃ ns, parseArgs cfg st (q.name :: dd :: ws) = .ok ns ∧ ns.get (destOf o) = some (.list ws) := by
+  obtain ⟨sub, hs, hval, hoth⟩ := runParser_dd hp hn ws
+  have hnc : Has sub noColor := by
+    apply has_of_get (v := .bool false)
+    rw [hoth noColor (Ne.symm hd.2)]
+    exact reach_noColor hr hq
+  obtain ⟨ns, hpa, _, hkv, _⟩ := parse_sub hr hq hpub h1 h2 hs hnc
+  exact ⟨ns, hpa, hkv _ _ hd.1 hd.2 hval⟩
 
 /-! ### the default command -/
 
 /-- the default command is the explicit one, else the first public (non-`!`) declaration -/
-theorem default_is_first_public {dflt ds adds st} (hr : Reach dflt ds adds st) :
+theorem default_is_first_public {nl dflt ds adds st} (hr : Reach nl dflt ds adds st) :
     (∀ d, dflt = some d → st.default = some d) ∧
     (dflt = none → st.default = ((ds.filter (fun d => !d.internal)).map (·.name)).head?) := by
   obtain ⟨ps0, hinv, _, _, _, hd⟩ := reach_unfold hr
@@ -431,17 +501,22 @@ theorem default_is_first_public {dflt ds adds st} (hr : Reach dflt ds adds st) :
 therefore this theorem, treats the names of internal `!` option sets as command names too — see
 `internal_name_gap`, `default_cmd_full_if_public_test`; known finding c19b).
 In every state (reachable or not): arguments that are empty or whose first word is neither
-`-h`/`--help` nor the name of any declared parser are parsed exactly as if the default command had
+`-h`/`--help` nor the name of any declared parser — `-`, `--`, the empty string, `h`, `help`, a name that
+merely contains or is contained in a command name … — are parsed exactly as if the default command had
 been written in front of them. -/
 theorem default_cmd_partial {st : St} {q : Parser} (hq : q ∈ st.parsers)
     (hpub : q.internal = false) (hd : st.default = some q.name) (argv : List Name)
     (h : ∀ a, argv.head? = some a → a ∉ [hShort, hLong] ∧ a ∉ names st.parsers) :
     parseArgs cfg st argv = parseArgs cfg st (q.name :: argv) := by
-  unfold parseArgs
-  rw [withDefault_keep argv (Or.inr (mem_firstArgNames hq hpub)), withDefault_insert argv, hd]
-  · intro a ha
-    rw [std_shape.2.2]
-    exact ⟨(h a ha).1, fun hm => (h a ha).2 (firstArgNames_sub hm)⟩
+  rw [parseArgs_eq, parseArgs_eq, List.map_cons, withDefault_keep _ (Or.inr (mem_firstArgNames hq hpub)),
+    withDefault_insert, hd]
+  intro a ha
+  have ha' : argv.head? = some a := by
+    cases argv with
+    | nil => simp at ha
+    | cons x r => simpa using ha
+  rw [std_shape.2.2.2]
+  exact ⟨(h a ha').1, fun hm => (h a ha').2 (firstArgNames_sub hm)⟩
 
 /-- **The full statement holds as soon as the first argument is compared with the public command
 names only** (`cfg.allParsers = false`, the two-line repair proposed for c19b; vacuous for the code as
@@ -453,28 +528,102 @@ theorem default_cmd_full_if_public_test {st : St} {q : Parser} (hfix : cfg.allPa
     parseArgs cfg st argv = parseArgs cfg st (q.name :: argv) := by
   have hfa : firstArgNames cfg st = publicNames st.parsers := by
     unfold firstArgNames; rw [hfix]; rfl
-  unfold parseArgs
-  rw [withDefault_keep argv (Or.inr (mem_firstArgNames hq hpub)), withDefault_insert argv, hd]
-  · intro a ha
-    rw [std_shape.2.2, hfa]
-    exact h a ha
+  rw [parseArgs_eq, parseArgs_eq, List.map_cons, withDefault_keep _ (Or.inr (mem_firstArgNames hq hpub)),
+    withDefault_insert, hd]
+  intro a ha
+  have ha' : argv.head? = some a := by
+    cases argv with
+    | nil => simp at ha
+    | cons x r => simpa using ha
+  rw [std_shape.2.2.2, hfa]
+  exact h a ha'
 
 /-- **The gap (known finding c19b).** The code compares the first argument with *all* parser names
 (`cfg.allParsers = true`, read from the source). Then, when the first word is the name of an internal
 `!` option set, the default command is *not* inserted: `parse_args` exits with "invalid choice". -/
-theorem internal_name_gap {dflt ds adds st} (hall : cfg.allParsers = true) (hr : Reach dflt ds adds st)
+theorem internal_name_gap {nl dflt ds adds st} (hall : cfg.allParsers = true) (hr : Reach nl dflt ds adds st)
     {q : Parser} (hq : q ∈ st.parsers)
     (hint : q.internal = true) (h1 : q.name ≠ hShort) (h2 : q.name ≠ hLong) (rest : List Name) :
     parseArgs cfg st (q.name :: rest) = .error (.exit 2) := by
-  obtain ⟨ps0, hinv, hwf, _, hp, _⟩ := reach_unfold hr
-  have hn : (names st.parsers).Nodup := hp ▸ reach_nodup hinv hwf
+  have hn := reach_names_nodup hr
   have hfa : firstArgNames cfg st = names st.parsers := by
     unfold firstArgNames; rw [if_pos hall]
-  unfold parseArgs
-  rw [withDefault_keep rest (Or.inr (hfa ▸ List.mem_map.mpr ⟨q, hq, rfl⟩))]
-  have h1' : q.name ≠ ['-', 'h'] := h1
-  have h2' : q.name ≠ ['-', '-', 'h', 'e', 'l', 'p'] := h2
-  simp only [dispatch, h1', h2', or_self, if_false, findParser_internal hn hq hint]
+  rw [parseArgs_eq, List.map_cons, withDefault_keep _ (Or.inr (hfa ▸ List.mem_map.mpr ⟨q, hq, rfl⟩)),
+    dispatch_internal hn hq hint h1 h2]
+
+/-! ### repeated calls, switches, the single-command parser -/
+
+/-- **No memory between calls; the caller's list.** `parse_args` inserts the default command into (and,
+with `_help_if_no_args`, appends `--help` to) the *caller's* list object. Parsing that same list object
+again gives the same result — in both modes, for every state, default and list. -/
+theorem parse_twice (ap : ArgP) (l : List (Option Name)) :
+    (parseList cfg ap (parseList cfg ap l).2).1 = (parseList cfg ap l).1 :=
+  parseList_twice cfg ap l
+
+/-- `_no_log_file` adds the attribute `_no_log_file=True` to every namespace and changes nothing else;
+without it the attribute is whatever the parser produced (normally absent). -/
+theorem no_log_file_attr (sw : Switches) {sub ns : Ns} (h : afterParse sw (.ok sub) = .ok ns) :
+    (sw.noLogFile = true → ns.get noLogFileAttr = some (.bool true)) ∧
+    (sw.noLogFile = false → ns.get noLogFileAttr = sub.get noLogFileAttr) ∧
+    (∀ k, k ≠ noLogFileAttr → k ≠ color → k ≠ noColor → ns.get k = sub.get k) := by
+  unfold afterParse at h
+  simp only [] at h
+  obtain ⟨_, _, h3⟩ := post_spec h
+  have c1 : noLogFileAttr ≠ color := by decide
+  have c2 : noLogFileAttr ≠ noColor := by decide
+  refine ⟨fun ht => ?_, fun hf => ?_, fun k k1 k2 k3 => ?_⟩
+  · rw [h3 _ c1 c2, if_pos ht, get_set_self]
+  · rw [h3 _ c1 c2]; simp [hf]
+  · rw [h3 k k2 k3]
+    split
+    · exact get_set_ne _ k1 _
+    · rfl
+
+/-- `_help_if_no_args`: an empty argument list becomes `['--help']` (in the caller's list too) and the
+multi-command parser exits with status 0. -/
+theorem help_if_no_args (sw : Switches) (st : St) (h : sw.helpIfNoArgs = true) :
+    parseList cfg { sw := sw, mode := .multi st } [] = (.error (.exit 0), [some helpLong]) := by
+  have hk : (helpLong : Name) ∈ cfg.helpFirst := by rw [std_shape.2.2.2]; decide
+  unfold parseList prepare
+  simp only [List.isEmpty_nil, h, Bool.and_self, if_true, withDefault_keep [] (Or.inl hk)]
+  simp [dispatch, afterParse]
+
+/-- **The single-command `ArgParser`** (no `commands=`): there is no default command and no dispatch — the
+arguments go to the one parser, the caller's list is touched only by `_help_if_no_args`; the standard
+options are accepted and post-processed exactly as in a command of a multi-command parser. -/
+theorem single_mode {nl : Bool} {adds : List OptSpec} {p : Parser} (hr : ReachS nl adds p) (sw : Switches) :
+    (∀ l, parseList cfg { sw := sw, mode := .single p } l =
+      (afterParse sw (runParser p ((prepare sw l).filterMap id)), prepare sw l)) ∧
+    (finishable p.opts = true → (∀ o' ∈ posSpecs p.opts, destOf o' ≠ color ∧ destOf o' ≠ noColor) →
+      ∃ ns, (parseList cfg { sw := sw, mode := .single p } [some sNoColor]).1 = .ok ns ∧
+        ns.get color = some (.bool false) ∧ ns.get noColor = none) := by
+  refine ⟨fun l => rfl, fun hfin hpc => ?_⟩
+  have he := reachS_opts hr
+  have hn : ∀ nl, stdIs nl sNoColor noColor 1 = true := by decide +kernel
+  obtain ⟨o, v, hd, hso, _, hv1, _⟩ := std_single he hfin (hn nl)
+  rw [hv1 rfl] at hso
+  obtain ⟨sub, hs, hhas, hval, _⟩ := hso.ok
+  have hsub : sub.get noColor = some (.bool true) := by
+    rw [← hd]; exact hval (fun o' ho' => hd ▸ (hpc o' ho').2)
+  have hrun : (parseList cfg { sw := sw, mode := .single p } [some sNoColor]).1 = afterParse sw (.ok sub) := by
+    unfold parseList prepare
+    simp only [List.isEmpty_cons, Bool.false_and, Bool.false_eq_true, if_false, List.filterMap_cons, id,
+      List.filterMap_nil, hs]
+  have hg : ∀ s : Ns, s.get noColor = some (.bool true) → ∃ ns, post s = .ok ns ∧
+      ns.get color = some (.bool false) ∧ ns.get noColor = none := by
+    intro s hsg
+    obtain ⟨ns, hns⟩ := post_ok (has_of_get hsg)
+    obtain ⟨g1, ⟨v0, hv0, ht, _⟩, _⟩ := post_spec hns
+    rw [hsg] at hv0
+    cases hv0
+    exact ⟨ns, hns, ht rfl, g1⟩
+  rw [hrun]
+  unfold afterParse
+  simp only []
+  apply hg
+  split
+  · rw [get_set_ne _ (by decide)]; exact hsub
+  · exact hsub
 
 /-! ### non-vacuity and the counterexample -/
 
@@ -491,23 +640,18 @@ def flag (s : String) : OptSpec := { strings := [n s], kind := .flag, mutex := f
 
 def addsDiamond : List (Option Name × OptSpec) :=
   [(some (n "a"), flag "--fa"), (some (n "c"), flag "--fc"), (some (n "o"), flag "--fo"), (none, flag "--all"),
-   (some (n "a"), { strings := [n "items"], kind := .pos, mutex := false })]
+   (some (n "a"), flag "--arg-one"), (some (n "b"), flag "--arg-two"),
+   (some (n "a"), { strings := [n "-q"], kind := .flag, mutex := false }),
+   (some (n "a"), { strings := [n "-o", n "--out"], kind := .value, mutex := false }),
+   (some (n "a"), { strings := [n "items"], kind := .pos .star, mutex := false })]
 
 def stDiamond : Except Fail St :=
-  match build cfg none dsDiamond with
+  match build cfg false none dsDiamond with
   | .ok st => addAll st addsDiamond
   | .error e => .error (.exc e)
 
-private theorem reach_of_eval {dflt ds adds st}
-    (h : (match build cfg dflt ds with
-      | .ok st0 => addAll st0 adds
-      | .error e => .error (.exc e)) = .ok st) : Reach dflt ds adds st := by
-  cases hb : build cfg dflt ds with
-  | error e => simp [hb] at h
-  | ok st0 => exact ⟨st0, hb, by simpa [hb] using h⟩
-
 /-- the hypotheses are satisfiable: the diamond is well-formed and reachable … -/
-example : ∃ st, Reach none dsDiamond addsDiamond st := by
+example : ∃ st, Reach false none dsDiamond addsDiamond st := by
   have hok : stDiamond.toOption.isSome = true := by decide +kernel
   cases h : stDiamond with
   | error e => simp [h, Except.toOption] at hok
@@ -537,6 +681,17 @@ example : parseDiamond ["b", "--fc"] = .error (.exit 2) := by decide +kernel
 example : parseDiamond ["d", "--fo"] = .error (.exit 2) := by decide +kernel
 example : okWith (parseDiamond ["w1", "w2"]) "items" (.list [n "w1", n "w2"]) = true := by decide +kernel
 example : okWith (parseDiamond ["--fa"]) "command" (.str (n "a")) = true := by decide +kernel
+-- abbreviations follow inheritance: `--arg` is `--arg-one` in `a`, ambiguous in `b` (even after -h), unknown in `o`'s world
+example : okWith (parseDiamond ["a", "--arg"]) "arg_one" (.bool true) = true := by decide +kernel
+example : parseDiamond ["b", "-h", "--arg"] = .error (.exit 2) := by decide +kernel
+example : okWith (parseDiamond ["b", "--arg-t"]) "arg_two" (.bool true) = true := by decide +kernel
+-- clusters, attached values, `--`, first words inside '-h--help'
+example : okWith (parseDiamond ["d", "-qvvofile", "--", "-x", "--"]) "items" (.list [n "-x", n "--"]) = true := by decide +kernel
+example : okWith (parseDiamond ["d", "-qvvofile"]) "verbose" (.nat 2) = true := by decide +kernel
+example : okWith (parseDiamond ["d", "-qvvofile"]) "out" (.str (n "file")) = true := by decide +kernel
+example : okWith (parseDiamond ["--", "x"]) "items" (.list [n "x"]) = true := by decide +kernel
+example : okWith (parseDiamond ["-", "help", "h", ""]) "items" (.list [n "-", n "help", n "h", n ""]) = true := by decide +kernel
+example : okWith (parseDiamond ["a", "--no-color"]) "color" (.bool false) = true := by decide +kernel
 example : parseDecl (n "!cmd2: cmd1 ,,opts, cmd1") = ⟨n "cmd2", true, [n "opts", n "cmd1"]⟩ := by decide +kernel
 example : render ⟨n "cmd2", false, [n "cmd1", n "opts_set1"]⟩ = n "cmd2:cmd1,opts_set1" := by decide +kernel
 
@@ -546,8 +701,8 @@ end Examples
 `commands=[('!o',…), ('a:o',…)]` and a positional `items` on `a`, the word `o` does not start with a
 command name, the default command `a` accepts it (`['a','o']` gives `items=['o']`), yet `['o']` exits. -/
 theorem default_cmd_internal_name_counterexample (hall : cfg.allParsers = true) :
-    ∃ st, Reach none [⟨['o'], true, []⟩, ⟨['a'], false, [['o']]⟩]
-        [(some ['a'], { strings := [['i', 't', 'e', 'm', 's']], kind := .pos, mutex := false })] st ∧
+    ∃ st, Reach false none [⟨['o'], true, []⟩, ⟨['a'], false, [['o']]⟩]
+        [(some ['a'], { strings := [['i', 't', 'e', 'm', 's']], kind := .pos .star, mutex := false })] st ∧
       st.default = some ['a'] ∧
       parseArgs cfg st [['o']] = .error (.exit 2) ∧
       (∃ ns, parseArgs cfg st [['a'], ['o']] = .ok ns ∧
@@ -556,8 +711,8 @@ theorem default_cmd_internal_name_counterexample (hall : cfg.allParsers = true) 
   -- evaluated by the kernel for the code as it is; if the source compares with the public names only,
   -- `hall` is contradictory and nothing is claimed
   first
-  | have hb : ∃ st0, build cfg none [⟨['o'], true, []⟩, ⟨['a'], false, [['o']]⟩] = .ok st0 ∧
-        ∃ st, addAll st0 [(some ['a'], { strings := [['i', 't', 'e', 'm', 's']], kind := .pos, mutex := false })] = .ok st ∧
+  | have hb : ∃ st0, build cfg false none [⟨['o'], true, []⟩, ⟨['a'], false, [['o']]⟩] = .ok st0 ∧
+        ∃ st, addAll st0 [(some ['a'], { strings := [['i', 't', 'e', 'm', 's']], kind := .pos .star, mutex := false })] = .ok st ∧
         st.default = some ['a'] ∧ parseArgs cfg st [['o']] = .error (.exit 2) ∧
         (parseArgs cfg st [['a'], ['o']]).toOption.bind (fun ns => ns.get ['i', 't', 'e', 'm', 's']) =
           some (.list [['o']]) := by
